@@ -130,7 +130,11 @@ def render(t, uni, backend, style=None, md=None):
         if k == "GetAttr":
             return "%s.getAttribute(%r)" % (r(ch[0]), t["a"])
         if k == "BadMeta":
-            return "MetaData(%s, %r)" % (r(ch[0]), bad_metadata(t["a"], backend, b))
+            s = r(ch[0])
+            mds = bad_metadata(t["a"].split("@")[0], backend, b)
+            for m in (mds if isinstance(mds, list) else [mds]):
+                s = "MetaData(%s, %r)" % (s, m)
+            return s
         if k == "Raw":
             return t["a"]
         raise ValueError("cannot render node kind %r" % k)
@@ -170,6 +174,12 @@ def bad_metadata(which, backend, b):
         d = dict(good_coll)
         del d["element_type"]
         return d
+    if which == "inject_conflict":
+        return [{"metadata_type": "inject_code", "name": "vp_block", "ctor_lines": ["vp_one();"]},
+                {"metadata_type": "inject_code", "name": "vp_block", "ctor_lines": ["vp_two();"]}]
+    if which == "jobscript_conflict":
+        return [{"metadata_type": "add_job_script", "name": "vp_script", "script": ["vp_one()"]},
+                {"metadata_type": "add_job_script", "name": "vp_script", "script": ["vp_two()"]}]
     raise ValueError("unknown bad metadata variant " + which)
 
 
